@@ -71,6 +71,24 @@ impl VtreeCase {
     }
 }
 
+/// a vtree with `total` leaves (labels 0..total, shape family of `vt`, leaf order and splits from `seed`) together
+/// with the labels that stand for the oracle's variables (as many as `vt` has leaves)
+pub fn embed_vtree(vt: &VtreeCase, total: u8, seed: u64) -> (VtreeCase, Vec<usize>) {
+    use crate::engine::splitmix;
+    let total = total.max(vt.k.max(1));
+    let big = VtreeCase {
+        k: total,
+        keys: (0..total as u64).map(|i| (splitmix(seed ^ (i + 1)) >> 48) as u16).collect(),
+        kind: vt.kind,
+        splits: (0..total as u64).map(|i| (splitmix(seed ^ (i + 1001)) >> 48) as u16).collect(),
+        stride: 1,
+        offset: 0,
+    };
+    let mut labels: Vec<usize> = crate::big::permutation(seed, total as usize).into_iter().take(vt.k.max(1) as usize).collect();
+    labels.sort_unstable();
+    (big, labels)
+}
+
 impl Shape {
     pub fn to_vtree(&self) -> VTree {
         match self {
